@@ -114,8 +114,41 @@ def run(ctx, R, tier):
                         '%s calls %s on %s: a malformed file would panic instead of producing an error' % (fn, nm, args),
                         detail={'on': args}, where=b.where(bb))
     R.floor('B.C18.err', n, 14)
+    err_paths(F, R)
     chan(F, R)
     eof(F, R)
+
+
+def err_paths(F, R):
+    """On every path of the streaming decoder on which a container/codec call reported an error, the function itself returns
+    an error (the one tolerated end-of-stream case is the static loader's UnexpectedEof break, checked by B.C18.eof):
+    an error is never turned into a success value such as an empty packet."""
+    n = 0
+    for fn in FNS[1:4]:
+        b = F.body(fn)
+        if b is None:
+            continue
+        bad = []
+        npaths = 0
+        for p in explore(b):
+            if p.end != 'return':
+                continue
+            failed = None
+            for bb, desc, lab in p.decisions:
+                if desc.startswith('discr(') and lab in ('Err', 'Break') and ('symphonia' in desc or 'Try>::branch' in desc or 'try_into' in desc.lower()):
+                    failed = desc
+                    break
+            if failed is None:
+                continue
+            npaths += 1
+            ret = str(p.ret)
+            if not ('Err' in ret or 'from_residual' in ret):
+                bad.append((failed[:80], ret[:80]))
+        n += 1
+        R.check(not bad and npaths >= 1, 'B.C18.err-paths', fn.split('::')[-1],
+                '%s returns a success value on a path where a container call failed: %s' % (fn, bad[:2]) if bad else 'no error path found in %s' % fn,
+                detail={'fn': fn.split('::')[-1], 'error_paths': npaths}, where=b.file)
+    R.floor('B.C18.err-paths', n, 3)
 
 
 def chan(F, R):
